@@ -7,7 +7,7 @@ import ast
 import math
 
 from .. import AnalysisError
-from ..astutil import bind_call, deref, names_in, raises_class, walk_stmts
+from ..astutil import bind_call, deref, names_in, raises_class, single_def, walk_stmts
 from ..cfg import ENTRY, cfg_of
 from ..consteval import ConstEval, NotConstant
 from ..model import src_of
@@ -410,3 +410,29 @@ def run(ctx):
                     else:
                         ctx.violate("R6", f"screening threshold {e.value:g} exceeds the documented 1e-15", co, n)
     ctx.floor("R6", nthr, 2, "screening comparisons")
+    # the shell-pair bound must dominate every primitive pair: exp(-a0 a1 r^2 / (a0 + a1)) decreases with either
+    # exponent, so the bound has to be taken at the smallest exponent of each shell (a min-reduction, not a position)
+    pmc = prog.parents(co)
+    nbound = 0
+    for n in co.own_nodes():
+        if isinstance(n, ast.If) and isinstance(n.test, ast.Compare) and any(isinstance(x, ast.For) for s_ in n.body for x in ast.walk(s_)):
+            names = [x for x in ast.walk(n.test) if isinstance(x, ast.Name)]
+            seen, work = set(), list(names)
+            while work:
+                x = work.pop()
+                if x.id in seen:
+                    continue
+                seen.add(x.id)
+                d = single_def(co, x.id)
+                if d is None:
+                    continue
+                if any(isinstance(y, ast.Attribute) and y.attr == "exponents" for y in ast.walk(d)):
+                    nbound += 1
+                    is_min = isinstance(d, ast.Call) and ((src_of(d.func) in ("np.min", "min", "np.amin") and len(d.args) == 1 and isinstance(d.args[0], ast.Attribute) and d.args[0].attr == "exponents") or (isinstance(d.func, ast.Attribute) and d.func.attr == "min" and isinstance(d.func.value, ast.Attribute) and d.func.value.attr == "exponents" and not d.args))
+                    if is_min:
+                        ctx.ok("R6", f"shell-pair bound uses `{x.id} = {src_of(d)}` (smallest exponent of the shell)", f"{om.relpath}:{d.lineno}")
+                    else:
+                        ctx.violate("R6", f"the shell-pair screening bound takes `{x.id} = {src_of(d)}`, which is not the minimum over the shell's exponents: with primitives in another order the bound underestimates and a significant block is skipped", co, d)
+                else:
+                    work.extend(y for y in ast.walk(d) if isinstance(y, ast.Name))
+    ctx.floor("R6", nbound, 2, "exponent reductions feeding the shell-pair bound")
